@@ -94,6 +94,7 @@ func (g *gen) badModule(name, kind string) *ModSpec {
 	g.lenient, g.noChains = false, true
 	spec := g.genModule(name)
 	g.lenient, g.noChains = saveL, false
+	spec.HideImportedTables = r.Bool()
 	// (ref.null items are probed where the instantiation succeeds; see elem-null-item)
 	for ei := range spec.Elems {
 		if !spec.Elems[ei].Passive && len(spec.Tables)+1 > 0 {
@@ -315,9 +316,9 @@ func (g *gen) badAttempt(n int) {
 		g.count("bad_module_turned_out_compatible")
 		return
 	}
-	if r.Chance(1, 3) {
-		g.push(Step{Kind: "gc", Tag: "gc"})
-	}
+	// nothing but the shared objects may keep what the failed instance left behind alive: collect before looking
+	g.push(Step{Kind: "gc", Tag: "gc"})
+	g.count("gc_after_failed_instantiation")
 	g.sweep()
 	for k := 2 + r.Intn(6); k > 0; k-- {
 		g.randomOp()
